@@ -25,7 +25,7 @@ func genDHCP(prop string, seed uint64, tier string) Scenario {
 	sc := Scenario{Prop: prop, Family: "dhcp", Seed: seed}
 	c := &sc.Cfg
 	c.ProbeMin, c.OfflineMin, c.PurgeMin = 2, 5, 61
-	hb := [][2]int{{24, 25}, {24, 28}, {25, 27}, {26, 28}, {27, 29}, {28, 30}, {28, 29}}[r.weighted([]int{2, 2, 2, 2, 3, 4, 3})]
+	hb := [][2]int{{24, 25}, {24, 28}, {25, 27}, {26, 28}, {27, 29}, {28, 30}, {28, 29}, {23, 25}, {22, 28}}[r.weighted([]int{2, 2, 2, 2, 3, 4, 3, 2, 1})]
 	c.HomeBits, c.NFBits = hb[0], hb[1]
 	c.NFLow = c.NFBits <= 28 && r.chance(1, 3)
 	c.HostLLA = true
